@@ -182,6 +182,8 @@ def run(ctx):
     extra_oracles.c05_dtype_history(ctx, o3)
     import extra_oracles as _xo
     _xo.api_history_and_dtype(ctx, "C05")
+    import extra_oracles as _xo
+    _xo.module_instance_independence(ctx, "C05")
     ctx.notes["rule"] = ("translator validation: every sh_l_m (l ≤ 11) at seeded rational points incl. axes and 0, exact symbolic value vs float64 result; "
                          "API oracles: all output specifications × normalisations × normalize flags; non-trivial = l>0 and x≠0")
     ctx.assumptions += [
